@@ -15,7 +15,7 @@ import (
 func init() {
 	Register(&Property{
 		ID:    "C39",
-		Floor: 45,
+		Floor: 72,
 		Clauses: "html.Tokenizer: raw.start is written only by Next (to raw.end, before anything is read or returned) and by readByte's compaction (to 0, with raw.end reduced by the old raw.start and the live bytes buf[raw.start:raw.end] copied), " +
 			"and the raw span is never overwritten as a whole or aliased; raw.end moves forward only in readByte (+1, after the byte at the old raw.end was loaded) and in readScript (re-advancing exactly the rewind of readRawEndTag, under its true result); " +
 			"every other raw.end update is a rewind by a positive constant, by readRawEndTag's 3+len(rawTag), or to the data.start mark set by readMarkupDeclaration before it calls readDoctype/readCDATA; " +
@@ -37,12 +37,12 @@ func c39(c *Ctx) {
 	rb := T + "readByte"
 	next := T + "Next"
 
-	stores := c.P.HxStoresUnder("html.Tokenizer")
+	stores := c.P.HtmStoresUnder("html.Tokenizer")
 	if len(stores) < 50 {
 		c.Undecided("anchor", "stores into html.Tokenizer", fmt.Sprintf("only %d stores found", len(stores)))
 		return
 	}
-	byPath := map[string][]HxStore{}
+	byPath := map[string][]HtmStore{}
 	for _, s := range stores {
 		byPath[s.Path] = append(byPath[s.Path], s)
 	}
@@ -81,7 +81,7 @@ func c39(c *Ctx) {
 			c.Check(len(bad) == 0 && seen["next"] && seen["rb"], rule, construct, token.NoPos, fmt.Sprintf("%d store(s)", len(byPath["raw.start"])),
 				"raw.start must only become the previous token's end (Next) or 0 (compaction): "+strings.Join(bad, "; "))
 		}
-		esc := c.P.HxSubAddrEscapes("html.Tokenizer.raw")
+		esc := c.P.HtmSubAddrEscapes("html.Tokenizer.raw")
 		var where []string
 		for _, in := range esc {
 			where = append(where, c.P.Pos(InstrPos(in)))
@@ -95,7 +95,7 @@ func c39(c *Ctx) {
 	// ---- raw.end ----------------------------------------------------------------
 	c39RawEnd(c, byPath["raw.end"])
 	c.Guard(T+"readScript", selPath("raw.end").Where("forward", func(in ssa.Instruction) bool {
-		_, _, ok := HxBin(in.(*ssa.Store).Val, token.ADD)
+		_, _, ok := HtmBin(in.(*ssa.Store).Val, token.ADD)
 		return ok
 	}), "readRawEndTag($r)")
 	c.Callers(T+"readScript", T+"readRawOrRCDATA")
@@ -118,7 +118,7 @@ func c39(c *Ctx) {
 		if len(r.Results) != 1 {
 			return false
 		}
-		_, isConst := HxConstInt(r.Results[0])
+		_, isConst := HtmConstInt(r.Results[0])
 		return !isConst
 	})
 	errStore := Stores("html.Tokenizer.err")
@@ -134,6 +134,7 @@ func c39(c *Ctx) {
 	c.Has(rb, Calls("builtin:copy").ArgIs(1, "$r.buf[$r.raw.start:$r.raw.end]"))
 	c.Has(rb, selPath("raw.end").StoredIs("($r.raw.end-$r.raw.start)"))
 	c39SpanShift(c, fnRB, byPath)
+	c39Refill(c, fnRB)
 
 	// ---- error state ------------------------------------------------------------------
 	c.Writers("html.Tokenizer.err", rb, T+"readDoctype", T+"readCDATA")
@@ -190,7 +191,7 @@ func c39(c *Ctx) {
 }
 
 // c39RawEnd classifies every store to raw.end.
-func c39RawEnd(c *Ctx, sts []HxStore) {
+func c39RawEnd(c *Ctx, sts []HtmStore) {
 	T := c39T
 	rule := "raw-end-moves"
 	if len(sts) < 20 {
@@ -198,11 +199,11 @@ func c39RawEnd(c *Ctx, sts []HxStore) {
 		return
 	}
 	isLoadOf := func(v ssa.Value, path string) bool {
-		u, ok := HxStrip(v).(*ssa.UnOp)
+		u, ok := HtmStrip(v).(*ssa.UnOp)
 		if !ok || u.Op != token.MUL {
 			return false
 		}
-		p, _ := HxFieldPath(u.X)
+		p, _ := HtmFieldPath(u.X)
 		return strings.Join(p, ".") == path
 	}
 	// K of readRawEndTag: raw.end -= K + len(rawTag)
@@ -210,7 +211,7 @@ func c39RawEnd(c *Ctx, sts []HxStore) {
 	var fwd, odd, backBad []string
 	fwdSeen := map[string]int64{}
 	for _, s := range sts {
-		v := HxStrip(s.St.Val)
+		v := HtmStrip(s.St.Val)
 		where := fmt.Sprintf("%s (%s)", s.Outer, c.P.Pos(s.St.Pos()))
 		if s.Fn.Parent() != nil {
 			odd = append(odd, "store inside a closure: "+where)
@@ -219,7 +220,7 @@ func c39RawEnd(c *Ctx, sts []HxStore) {
 		if b, ok := v.(*ssa.BinOp); ok && isLoadOf(b.X, "raw.end") {
 			switch b.Op {
 			case token.ADD:
-				k, isConst := HxConstInt(b.Y)
+				k, isConst := HtmConstInt(b.Y)
 				if !isConst || k <= 0 {
 					odd = append(odd, "non-constant advance: "+where)
 					continue
@@ -230,7 +231,7 @@ func c39RawEnd(c *Ctx, sts []HxStore) {
 				}
 				continue
 			case token.SUB:
-				if k, isConst := HxConstInt(b.Y); isConst {
+				if k, isConst := HtmConstInt(b.Y); isConst {
 					if k <= 0 {
 						backBad = append(backBad, "rewind by non-positive constant: "+where)
 					}
@@ -239,7 +240,7 @@ func c39RawEnd(c *Ctx, sts []HxStore) {
 				if isLoadOf(b.Y, "raw.start") && s.Outer == T+"readByte" {
 					continue // compaction
 				}
-				if x, k, ok := HxBin(b.Y, token.ADD); ok && Term(x) == "len($r.rawTag)" && k > 0 && s.Outer == T+"readRawEndTag" {
+				if x, k, ok := HtmBin(b.Y, token.ADD); ok && Term(x) == "len($r.rawTag)" && k > 0 && s.Outer == T+"readRawEndTag" {
 					rewindK = k
 					continue
 				}
@@ -265,7 +266,7 @@ func c39RefillZero(c *Ctx, fn *ssa.Function, byteRet Sel) {
 	construct := c39T + "readByte: when the refill read 0 bytes never [return a byte]"
 	var zeroSucc *ssa.BasicBlock
 	var at ssa.Instruction
-	HxEach(fn, func(in ssa.Instruction) {
+	HtmEach(fn, func(in ssa.Instruction) {
 		ifi, ok := in.(*ssa.If)
 		if !ok {
 			return
@@ -274,8 +275,8 @@ func c39RefillZero(c *Ctx, fn *ssa.Function, byteRet Sel) {
 		if !ok || (b.Op != token.EQL && b.Op != token.NEQ) {
 			return
 		}
-		k, isConst := HxConstInt(b.Y)
-		ex, isEx := HxStrip(b.X).(*ssa.Extract)
+		k, isConst := HtmConstInt(b.Y)
+		ex, isEx := HtmStrip(b.X).(*ssa.Extract)
 		if !isConst || k != 0 || !isEx || ex.Index != 0 {
 			return
 		}
@@ -295,7 +296,7 @@ func c39RefillZero(c *Ctx, fn *ssa.Function, byteRet Sel) {
 		return
 	}
 	rets := byteRet.F(c.P, fn)
-	c.Check(!HxBlockReaches(zeroSucc, rets), rule, construct, at.Pos(), "", "a byte is returned although nothing was read (index past the buffered data)")
+	c.Check(!HtmBlockReaches(zeroSucc, rets), rule, construct, at.Pos(), "", "a byte is returned although nothing was read (index past the buffered data)")
 	errSt := Stores("html.Tokenizer.err").F(c.P, fn)
 	all := Returns().F(c.P, fn)
 	// every return reachable from the zero edge is preceded on that edge by an err store: check the err store is in the successor block
@@ -319,16 +320,16 @@ func c39LoadBeforeAdvance(c *Ctx, fn *ssa.Function) {
 	rule := "call-before"
 	construct := c39T + "readByte: buf[raw.end] is loaded before raw.end is advanced"
 	var load, adv ssa.Instruction
-	HxEach(fn, func(in ssa.Instruction) {
+	HtmEach(fn, func(in ssa.Instruction) {
 		switch x := in.(type) {
 		case *ssa.UnOp:
 			if ia, ok := x.X.(*ssa.IndexAddr); ok && x.Op == token.MUL && Term(ia.X) == "$r.buf" && Term(ia.Index) == "$r.raw.end" {
 				load = in
 			}
 		case *ssa.Store:
-			p, _ := HxFieldPath(x.Addr)
+			p, _ := HtmFieldPath(x.Addr)
 			if strings.Join(p, ".") == "raw.end" {
-				if _, k, ok := HxBin(x.Val, token.ADD); ok && k == 1 {
+				if _, k, ok := HtmBin(x.Val, token.ADD); ok && k == 1 {
 					adv = in
 				}
 			}
@@ -355,8 +356,8 @@ func c39LoadBeforeAdvance(c *Ctx, fn *ssa.Function) {
 	}
 	// and the byte returned is that load
 	retOK := false
-	HxEach(fn, func(in ssa.Instruction) {
-		if r, isRet := in.(*ssa.Return); isRet && len(r.Results) == 1 && HxStrip(r.Results[0]) == load.(ssa.Value) {
+	HtmEach(fn, func(in ssa.Instruction) {
+		if r, isRet := in.(*ssa.Return); isRet && len(r.Results) == 1 && HtmStrip(r.Results[0]) == load.(ssa.Value) {
 			retOK = true
 		}
 	})
@@ -364,7 +365,7 @@ func c39LoadBeforeAdvance(c *Ctx, fn *ssa.Function) {
 }
 
 // c39SpanShift: every span-typed location of Tokenizer other than raw is shifted by raw.start in readByte.
-func c39SpanShift(c *Ctx, fn *ssa.Function, byPath map[string][]HxStore) {
+func c39SpanShift(c *Ctx, fn *ssa.Function, byPath map[string][]HtmStore) {
 	rule := "span-shift"
 	obj := c.P.Object("html.Tokenizer")
 	spanObj := c.P.Object("html.span")
@@ -458,7 +459,7 @@ func c39ErrTestedAfterRead(c *Ctx) {
 	cnt := map[string]int{}
 	for _, fn := range c.P.All {
 		name := FnName(Outer(fn))
-		HxEach(fn, func(in ssa.Instruction) {
+		HtmEach(fn, func(in ssa.Instruction) {
 			call, ok := in.(*ssa.Call)
 			if !ok || call.Call.StaticCallee() != target {
 				return
@@ -604,7 +605,7 @@ func c39ReplacementTable(c *Ctx) {
 		return
 	}
 	found := false
-	HxEach(fn, func(in ssa.Instruction) {
+	HtmEach(fn, func(in ssa.Instruction) {
 		ia, ok := in.(*ssa.IndexAddr)
 		if !ok {
 			return
@@ -614,7 +615,7 @@ func c39ReplacementTable(c *Ctx) {
 			return
 		}
 		found = true
-		x, k, ok := HxBin(ia.Index, token.SUB)
+		x, k, ok := HtmBin(ia.Index, token.SUB)
 		if !ok {
 			c.Fail(rule, construct, in.Pos(), "index `"+Term(ia.Index)+"` is not x - const")
 			return
@@ -661,7 +662,7 @@ func c39UnescapeNoAmp(c *Ctx) {
 	}
 	var miss *ssa.BasicBlock
 	var at *ssa.If
-	HxEach(fn, func(in ssa.Instruction) {
+	HtmEach(fn, func(in ssa.Instruction) {
 		ifi, ok := in.(*ssa.If)
 		if !ok {
 			return
@@ -670,8 +671,8 @@ func c39UnescapeNoAmp(c *Ctx) {
 		if !ok || (b.Op != token.EQL && b.Op != token.NEQ) {
 			return
 		}
-		k, isConst := HxConstInt(b.Y)
-		call, isCall := HxStrip(b.X).(*ssa.Call)
+		k, isConst := HtmConstInt(b.Y)
+		call, isCall := HtmStrip(b.X).(*ssa.Call)
 		if !isConst || k != -1 || !isCall || !strings.HasPrefix(CalleeName(&call.Call), "slices.Index") {
 			return
 		}
@@ -692,5 +693,51 @@ func c39UnescapeNoAmp(c *Ctx) {
 			dom = false
 		}
 	}
-	c.Check(dom && !HxBlockReaches(miss, sites), rule, construct, at.Pos(), fmt.Sprintf("%d site(s)", len(sites)), "b[:-1] would be evaluated")
+	c.Check(dom && !HtmBlockReaches(miss, sites), rule, construct, at.Pos(), fmt.Sprintf("%d site(s)", len(sites)), "b[:-1] would be evaluated")
+}
+
+// c39Refill: the reader fills buf1[d:...] with d = raw.end-raw.start (the live bytes are not overwritten) and
+// buf is then extended to d + n with n the count the reader returned.
+func c39Refill(c *Ctx, fn *ssa.Function) {
+	rule := "refill-window"
+	const d = "($r.raw.end-$r.raw.start)"
+	var call *ssa.Call
+	HtmEach(fn, func(in ssa.Instruction) {
+		if x, ok := in.(*ssa.Call); ok && CalleeName(&x.Call) == "html.readAtLeastOneByte" {
+			call = x
+		}
+	})
+	if call == nil {
+		c.Fail(rule, c39T+"readByte: reads into buf1[d:]", fn.Pos(), "no call of readAtLeastOneByte")
+		return
+	}
+	sl, ok := call.Call.Args[1].(*ssa.Slice)
+	c.Check(ok && sl.Low != nil && Term(sl.Low) == d, rule, c39T+"readByte: the reader fills the buffer from offset d = raw.end-raw.start", call.Pos(), "",
+		"the read would overwrite bytes of the current token or leave a gap: window is "+Term(call.Call.Args[1]))
+	good := false
+	HtmEach(fn, func(in ssa.Instruction) {
+		st, ok := in.(*ssa.Store)
+		if !ok {
+			return
+		}
+		if p, _ := HtmFieldPath(st.Addr); strings.Join(p, ".") != "buf" {
+			return
+		}
+		s2, ok := st.Val.(*ssa.Slice)
+		if !ok || s2.High == nil {
+			return
+		}
+		add, ok := HtmStrip(s2.High).(*ssa.BinOp)
+		if !ok || add.Op != token.ADD {
+			return
+		}
+		for _, pair := range [][2]ssa.Value{{add.X, add.Y}, {add.Y, add.X}} {
+			ex, isEx := HtmStrip(pair[1]).(*ssa.Extract)
+			if isEx && ex.Tuple == ssa.Value(call) && ex.Index == 0 && Term(pair[0]) == d {
+				good = true
+			}
+		}
+	})
+	c.Check(good, rule, c39T+"readByte: after a refill buf = buf1[:d+n] with n the count returned by the reader", call.Pos(), "",
+		"buf would not cover exactly the live bytes plus the bytes just read (index past the end, or unread garbage)")
 }
